@@ -31,7 +31,9 @@ from pbt.gen.build import build_part, _structure
 PROPERTY = "C03"
 ENGINES = ["hypothesis"]
 ASSUMPTIONS = [
-    "every note lies inside a measure; measure numbers are 1..n and names are strings; ids are unique and do not start with a digit",
+    "every note lies inside a measure; measure numbers are 1..n (names are any string or None); ids are unique and do not start with a digit",
+    "no note or rest crosses a bar line or a change of the divisions (silence may); voice numbers are positive (a note without voice is read back as voice 1)",
+    "chord symbols are written into the measure stream but their own content is not compared (harmony is not in the property's list)",
     "concurrently tied notes of one part have distinct pitches (MusicXML pairs ties by pitch)",
     "fields compared up to documented equivalences: alter None == 0, staff None == 1 (notes and directions), symbolic durations as their effective value (the library estimates one when none is stored), clef octave change None == 0, symbolic duration dots missing == 0, ending numbers as strings",
     "objects the importer adds on its own (Page, System) and beams are not part of the comparison",
@@ -50,6 +52,7 @@ BASIC_DYNAMICS = ["p", "f", "mf", "pp", "sfz", "fp"]
 # every dynamics mark the importer maps to a direction class (importmusicxml.DYN_DIRECTIONS)
 DYNAMICS = BASIC_DYNAMICS + ["ff", "fff", "ffff", "fffff", "ffffff", "n", "mp", "ppp", "pppp", "ppppp", "pppppp", "pf", "rf", "rfz", "fz", "sf",
                              "sffz", "sfp", "sfzp", "sfpp"]
+IMPULSIVE_DYNAMICS = ["fp", "pf", "rf", "rfz", "fz", "sf", "sffz", "sfp", "sfzp", "sfpp", "sfz"]
 BASIC_WORDS = ["dolce", "cresc.", "rit.", "Allegro"]
 # texts parse_direction turns into other direction classes, into two directions, or leaves as score.Words
 WORDS = BASIC_WORDS + ["a tempo", "Tempo I", "poco a poco cresc.", "molto espressivo", "legato", "rinf.", "dim. e rit.", "con brio", "arco",
@@ -98,11 +101,21 @@ def decorate(draw, ps, prefix):
                 continue
             keep.append(n)
         notes[:] = keep
+        # a measure without any note or rest
+        if draw(st.integers(0, 2)) == 0:
+            m = ps["measures"][draw(st.integers(0, len(ps["measures"]) - 1))]
+            inside = [n for n in notes if m[0] <= n["t"] < m[1]]
+            removable = all(n["kind"] in ("note", "rest") and not n.get("tie_next") and not n.get("tie_prev") and not (n.get("sym") or {}).get("actual_notes")
+                            and n["id"] not in tuplet_ends and not is_main_of_grace(n) for n in inside)
+            if removable:
+                notes[:] = [n for n in notes if not (m[0] <= n["t"] < m[1])]
     # ---- further ties: a second tied member of a chord, ties between voices ---------------------------
-    if draw(st.integers(0, 2)) == 0:
+    if draw(st.integers(0, 1)) == 0:
         srcs = [n for n in notes if n["kind"] == "note" and not n.get("tie_next")]
+        barlines = set(m[1] for m in ps["measures"])
         for a in srcs:
-            if draw(st.integers(0, 2)) != 0:
+            # (more often over a bar line, so that chains over several bar lines arise)
+            if draw(st.integers(0, 1 if a["t"] + a["dur"] in barlines else 3)) != 0:
                 continue
             # (the candidate is re-pitched; every other note must stay clear of the pitch while it sounds)
             cands = [b for b in notes if b["kind"] == "note" and b is not a and b["t"] == a["t"] + a["dur"] and b["dur"] > 0
@@ -239,28 +252,25 @@ def decorate(draw, ps, prefix):
     repeats, endings = [], []
     nb = len(bars)
     i = 0
-    p_repeat = 3 if nb >= 2 else 7
+    M = ps["measures"]
     while i < nb:
-        if draw(st.integers(0, p_repeat)) != 0:
+        kind = draw(st.sampled_from(["none", "none", "none", "repeat", "volta"]))
+        if kind == "none":
             i += 1
-            continue
-        j = draw(st.integers(i, nb - 1))
-        repeats.append([bars[i], ps["measures"][j][1]])
-        nxt = j + 1
-        if j + 1 < nb and j > i and draw(st.booleans()):
-            form = draw(st.sampled_from(["1|2", "1|2", "1, 2|3", "1|2|3"]))
-            if form == "1|2|3" and j + 2 < nb and j - 1 > i:
-                endings.append([ps["measures"][j - 1][0], ps["measures"][j - 1][1], 1])
-                endings.append([ps["measures"][j][0], ps["measures"][j][1], 2])
-                endings.append([ps["measures"][j + 1][0], ps["measures"][j + 1][1], 3])
-            elif form == "1, 2|3":
-                endings.append([ps["measures"][j][0], ps["measures"][j][1], "1, 2"])
-                endings.append([ps["measures"][j + 1][0], ps["measures"][j + 1][1], "3"])
-            else:
-                endings.append([ps["measures"][j][0], ps["measures"][j][1], 1])
-                endings.append([ps["measures"][j + 1][0], ps["measures"][j + 1][1], 2])
-            nxt = j + 2
-        i = nxt
+        elif kind == "repeat" or nb - i < 3:
+            j = draw(st.integers(i, nb - 1))
+            repeats.append([bars[i], M[j][1]])
+            i = j + 1
+        else:
+            # repeated section with first / second (/ third) ending: the repeat ends with the last but one ending
+            form = draw(st.sampled_from(["1|2", "1, 2|3", "1|2|3"] if nb - i >= 4 else ["1|2", "1, 2|3"]))
+            k = 3 if form == "1|2|3" else 2
+            j = draw(st.integers(i + 1, nb - k))  # index of the first ending measure
+            numbers = {"1|2": [1, 2], "1, 2|3": ["1, 2", "3"], "1|2|3": [1, 2, 3]}[form]
+            for x, num in enumerate(numbers):
+                endings.append([M[j + x][0], M[j + x][1], num])
+            repeats.append([bars[i], M[j + k - 2][1]])
+            i = j + k
     ps["repeats"], ps["endings"] = repeats, endings
     ps["abbr"] = draw(st.sampled_from([None, "Pno.", "Vl."]))
     # measure names: the running number, a pickup called "0", names that are not numbers, no name
@@ -389,10 +399,9 @@ def build(sspec):
                 o[n["id"]].technical = [S.Fingering(n["fingering"])]
         for d in ps.get("directions", []):
             if d["k"] == "dyn":
-                from partitura.io.importmusicxml import DYN_DIRECTIONS
-
-                ob = DYN_DIRECTIONS[d["text"]](d["text"], staff=d["staff"])
-                p.add(ob, d["t"])
+                # (own table: marks of sudden emphasis are impulsive, plain levels constant)
+                cls = S.ImpulsiveLoudnessDirection if d["text"] in IMPULSIVE_DYNAMICS else S.ConstantLoudnessDirection
+                p.add(cls(d["text"], staff=d["staff"]), d["t"])
             elif d["k"] == "wedge":
                 cls = S.IncreasingLoudnessDirection if d["text"] == "crescendo" else S.DecreasingLoudnessDirection
                 p.add(cls(d["text"], wedge=True, staff=d.get("staff")), d["t"], d["end"])
@@ -543,12 +552,18 @@ def fingerprint(score):
         d["slurs"] = sorted(((s.start_note.id if s.start_note else None, s.end_note.id if s.end_note else None) for s in p.iter_all(S.Slur)), key=repr)
         d["tuplets"] = sorted(((t.start_note.id if t.start_note else None, t.end_note.id if t.end_note else None, t.actual_notes, t.normal_notes, t.actual_type, t.normal_type) for t in p.iter_all(S.Tuplet)), key=repr)
         d["tempos"] = sorted((o.start.t, int(round(float(Fraction(o.bpm) * {None: 1, "q": 1, "h": 2, "e": Fraction(1, 2), "q.": Fraction(3, 2)}[o.unit])))) for o in p.iter_all(S.Tempo))
-        dirs = []
+        # directions: what and when (kind "directions-differ"), then on which staff (kind "direction-staffs-differ",
+        # only reported when the first comparison agrees); plain text objects apart (kind "words-differ")
+        dirs, staffs, words = [], [], []
         for o in p.iter_all(S.Direction, include_subclasses=True):
-            dirs.append((type(o).__name__, o.text, o.start.t, o.end.t if o.end is not None else None, o.staff or 1, getattr(o, "line", None)))
+            rec = (type(o).__name__, o.text, o.start.t, o.end.t if o.end is not None else None, getattr(o, "line", None))
+            dirs.append(rec)
+            staffs.append(rec + (o.staff or 1,))
         for o in p.iter_all(S.Words):
-            dirs.append(("Words", o.text, o.start.t, None, o.staff or 1))
+            words.append(("Words", o.text, o.start.t, None, o.staff or 1))
         d["directions"] = sorted(dirs, key=repr)
+        d["direction-staffs"] = sorted(staffs, key=repr)
+        d["words"] = sorted(words, key=repr)
         d["repeats"] = sorted(((o.start.t if o.start else None, o.end.t if o.end else None) for o in p.iter_all(S.Repeat)), key=repr)
         d["endings"] = sorted(((o.start.t if o.start else None, o.end.t if o.end else None, str(o.number)) for o in p.iter_all(S.Ending)), key=repr)
         d["barline-fermatas"] = sorted(((o.start.t, o.ref) for o in p.iter_all(S.Fermata) if not isinstance(o.ref, S.GenericNote)), key=repr)
@@ -571,6 +586,8 @@ def compare_fingerprints(o, a, b):
         A, B = a[pid], b[pid]
         for key in A:
             if key == "notes":
+                continue
+            if key == "direction-staffs" and A["directions"] != B["directions"]:
                 continue
             if A[key] != B[key]:
                 la, lb = A[key], B[key]
@@ -782,10 +799,11 @@ def oracle(spec):
         if xml3 != xml2:
             o.add("reexport-not-a-fixpoint-after-two-rounds")
     elif xml2 != xml1:
-        l1 = xml1.decode().splitlines()
-        l2 = xml2.decode().splitlines()
-        extra = [x.strip() for x in l2 if x not in l1][:4]
-        lost = [x.strip() for x in l1 if x not in l2][:4]
+        # (multiset difference of the lines: a line that occurs once more or once less counts)
+        l1 = Counter(x.strip() for x in xml1.decode().splitlines())
+        l2 = Counter(x.strip() for x in xml2.decode().splitlines())
+        extra = sorted((l2 - l1).elements())[:8]
+        lost = sorted((l1 - l2).elements())[:8]
         only_print = bool(extra) and all(re.fullmatch(r'<print new-page="yes" new-system="yes"/>', x) for x in extra) and not lost
         o.add("reexport-adds-first-page-print" if only_print else "reexport-not-byte-identical", extra=extra, lost=lost)
         score3 = call(load_musicxml, io.BytesIO(xml2))
@@ -826,14 +844,242 @@ def known_print(spec, d):
     return d.kind == "reexport-adds-first-page-print"
 
 
+# ---- findings of the generator audit (each predicate: the discrepancy kind AND the input that triggers it) ----------
+PRINT_LINE = '<print new-page="yes" new-system="yes"/>'
+TIMED_KINDS = ("file-denotes-other-notes", "measures-differ", "note-t-changed", "note-end-changed", "divisions-differ", "time-signatures-differ",
+               "key-signatures-differ", "clefs-differ", "tempos-differ", "directions-differ", "words-differ", "repeats-differ", "endings-differ",
+               "barline-fermatas-differ")
+
+
+def _part(spec, d):
+    pid = (d["detail"] or {}).get("part")
+    for ps in spec["parts"]:
+        if ps["id"] == pid:
+            return ps
+    return None
+
+
+def _unfilled_measure(ps):
+    """A measure whose notes and rests end before the measure does."""
+    real = [n for n in ps["notes"] if n["kind"] != "grace"]
+    for m in ps["measures"]:
+        if max([n["t"] + n["dur"] for n in real if m[0] <= n["t"] < m[1]] + [m[0]]) < m[1]:
+            return True
+    return False
+
+
+def _empty_measure(ps):
+    real = [n for n in ps["notes"] if n["kind"] != "grace"]
+    return any(not [n for n in real if m[0] <= n["t"] < m[1]] for m in ps["measures"])
+
+
+def known_unfilled(spec, d):
+    """The exporter writes no <forward> to the end of a measure whose last voice ends early: the measure gets
+    shorter on import and everything after it moves."""
+    if d.kind in ("reexport-not-byte-identical", "reexport-not-a-fixpoint-after-two-rounds"):
+        # the shortened (for a measure without any note or rest: empty) measure of the loaded score no longer
+        # holds what started in the cut off piece (attributes, directions): it is not written the second time
+        return any(_unfilled_measure(ps) for ps in spec["parts"])
+    ps = _part(spec, d)
+    return d.kind in TIMED_KINDS and ps is not None and _unfilled_measure(ps)
+
+
+def _right_fermatas(ps):
+    return [t for (t, ref) in ps.get("bfermatas", []) if ref == "right" and any(m[0] == t for m in ps["measures"])]
+
+
+def known_fermata_twice(spec, d):
+    """A fermata on the right bar line of a measure is written again on the left bar line of the next measure."""
+    ps = _part(spec, d)
+    if d.kind != "barline-fermatas-differ" or ps is None:
+        return False
+    return bool(_right_fermatas(ps)) and _fermata_entries_explained(ps, d["detail"])
+
+
+def _fermata_entries_explained(ps, det):
+    """Every differing bar line fermata is one of: an additional "left" copy of a "right" fermata between two
+    measures; a "middle" fermata on a divisions change that came back as "left"."""
+    changes = set(t for t, _ in ps["divs"][1:])
+    orig = [tuple(x) for x in det["only_in_original"]]
+    rel = [tuple(x) for x in det["only_in_reloaded"]]
+    if not (orig or rel):
+        return False
+    if not all(ref == "middle" and t in changes for (t, ref) in orig):
+        return False
+    middle = set(t for (t, _) in orig)
+    return all(ref == "left" and (t in _right_fermatas(ps) or t in middle) for (t, ref) in rel)
+
+
+def known_words_dropped(spec, d):
+    """score.Words objects (text that is not a recognised direction) are not exported."""
+    ps = _part(spec, d)
+    if d.kind != "words-differ" or ps is None:
+        return False
+    det = d["detail"]
+    return not det["only_in_reloaded"] and bool(det["only_in_original"]) and any(x["k"] == "words" and x["text"] in PLAIN_WORDS for x in ps.get("directions", []))
+
+
+def _staffed_text_directions(ps):
+    return [x for x in ps.get("directions", []) if x["k"] in ("wedge", "words", "dashes") and (x.get("staff") or 1) > 1]
+
+
+def known_direction_staff(spec, d):
+    """The importer reads <staff> of a direction but passes it to dynamics and pedals only: wedges and words lose it."""
+    ps = _part(spec, d)
+    if d.kind != "direction-staffs-differ" or ps is None or not _staffed_text_directions(ps):
+        return False
+    det = d["detail"]
+    from partitura.io.importmusicxml import DYN_DIRECTIONS
+
+    def textual(rec):
+        return rec[1] not in DYN_DIRECTIONS and rec[1] != "sustain_pedal"
+
+    return (all(textual(r) and r[-1] > 1 for r in det["only_in_original"]) and all(textual(r) and r[-1] == 1 for r in det["only_in_reloaded"]))
+
+
+def known_soft_accent(spec, d):
+    """soft-accent is read by the importer but missing from the exporter's list of articulations."""
+    if d.kind != "note-art-changed":
+        return False
+    det = d["detail"]
+    return "soft-accent" in det["original"] and [a for a in det["original"] if a != "soft-accent"] == list(det["reloaded"])
+
+
+def _staffless_note_in_multi_staff_part(ps):
+    many = any((n.get("staff") or 1) > 1 for n in ps["notes"]) or any(c[1] > 1 for c in ps["clefs"]) or any((x.get("staff") or 1) > 1 for x in ps.get("directions", []))
+    return many and any(n.get("staff") is None for n in ps["notes"])
+
+
+def _plain_words_alone_on_highest_staff(ps):
+    plain = [x for x in ps.get("directions", []) if x["k"] == "words" and x["text"] in PLAIN_WORDS and (x.get("staff") or 1) > 1]
+    if not plain:
+        return False
+    others = [n.get("staff") or 1 for n in ps["notes"]] + [c[1] for c in ps["clefs"]]
+    others += [x.get("staff") or 1 for x in ps.get("directions", []) if not (x["k"] == "words" and x["text"] in PLAIN_WORDS)]
+    return max(x.get("staff") or 1 for x in plain) > max(others + [1])
+
+
+def known_words_dropped_bytes(spec, d):
+    return d.kind == "reexport-not-byte-identical" and any(_plain_words_alone_on_highest_staff(ps) for ps in spec["parts"]) and _byte_lines_explained(spec, d)
+
+
+def _byte_lines_explained(spec, d):
+    """Every line the second file has more / less than the first is one that an open finding puts there."""
+    from pbt.core import load_known_findings
+
+    active = set(load_known_findings()[0].get(PROPERTY, {}))
+    ok_extra, ok_lost = [re.escape(PRINT_LINE)], []
+    for ps in spec["parts"]:
+        if "right-barline-fermata-written-twice" in active and _right_fermatas(ps):
+            ok_extra += [r'<barline location="left">', r"<fermata/>", r"</barline>"]
+        if "direction-staff-lost-on-import" in active and _staffed_text_directions(ps):
+            ok_lost += [r"<staff>\d</staff>"]
+        if "staff-element-added-for-note-without-staff" in active and _staffless_note_in_multi_staff_part(ps):
+            ok_extra += [r"<staff>1</staff>"]
+        if "words-object-not-exported" in active and _plain_words_alone_on_highest_staff(ps):
+            # the dropped text was the only thing on its staff: the loaded part has fewer staves
+            ok_lost += [r"<staff>\d</staff>", r"<staves>\d</staves>"]
+            ok_extra += [r"<staves>\d</staves>"]
+        if "slur-elements-in-attachment-order" in active and _slur_order_trigger(ps):
+            ok_extra += [r'<slur number="\d+" type="(start|stop)"/>']
+            ok_lost += [r'<slur number="\d+" type="(start|stop)"/>']
+    det = d["detail"]
+    return (bool(det["extra"] or det["lost"]) and all(any(re.fullmatch(p, x) for p in ok_extra) for x in det["extra"])
+            and all(any(re.fullmatch(p, x) for p in ok_lost) for x in det["lost"]))
+
+
+def known_fermata_twice_bytes(spec, d):
+    return d.kind == "reexport-not-byte-identical" and any(_right_fermatas(ps) for ps in spec["parts"]) and _byte_lines_explained(spec, d)
+
+
+def known_direction_staff_bytes(spec, d):
+    return d.kind == "reexport-not-byte-identical" and any(_staffed_text_directions(ps) for ps in spec["parts"]) and _byte_lines_explained(spec, d)
+
+
+def known_staffless(spec, d):
+    """A note without staff in a part with several staves is written without <staff>, read as staff 1 and then
+    written with <staff>1</staff>."""
+    return d.kind == "reexport-not-byte-identical" and any(_staffless_note_in_multi_staff_part(ps) for ps in spec["parts"]) and _byte_lines_explained(spec, d)
+
+
+def known_middle_fermata(spec, d):
+    """The exporter derives the location of a bar line element from the bounds of the segment of equal divisions
+    it is writing: a fermata inside a measure exactly where the divisions change is written as location="left"."""
+    ps = _part(spec, d)
+    if d.kind != "barline-fermatas-differ" or ps is None:
+        return False
+    changes = set(t for t, _ in ps["divs"][1:])
+    return any(ref == "middle" and t in changes for (t, ref) in ps.get("bfermatas", [])) and _fermata_entries_explained(ps, d["detail"])
+
+
+def _slur_order_trigger(ps):
+    """Two slurs start or stop on one note, and a slur stop can precede its start in the file (slur between
+    voices, or a note moved to another voice by the exporter)."""
+    ends = Counter()
+    byid = {n["id"]: n for n in ps["notes"]}
+    between = False
+    for a, b in ps.get("slurs", []):
+        ends[("start", a)] += 1
+        ends[("stop", b)] += 1
+        between = between or byid[a]["voice"] != byid[b]["voice"]
+    real = [n for n in ps["notes"] if n["kind"] != "grace"]
+    poly = any(a is not b and a["voice"] == b["voice"] and a["t"] < b["t"] + b["dur"] and b["t"] < a["t"] + a["dur"] and (a["t"], a["dur"]) != (b["t"], b["dur"])
+               for a in real for b in real)
+    return any(v >= 2 for v in ends.values()) and (between or poly)
+
+
+def known_slur_order(spec, d):
+    """The exporter numbers and orders the slur elements of a note in the order in which the slurs were attached
+    to it; the importer attaches them in the order of their numbers."""
+    if not any(_slur_order_trigger(ps) for ps in spec["parts"]):
+        return False
+    if d.kind == "reexport-not-a-fixpoint-after-two-rounds":
+        return True
+    return d.kind == "reexport-not-byte-identical" and _byte_lines_explained(spec, d)
+
+
+def known_division_change_without_point(spec, d):
+    """A divisions change inside a measure at a time where no note or rest starts or ends is not a segment
+    boundary for the exporter: backup / forward durations of later voices are counted in the wrong divisions."""
+    ps = _part(spec, d)
+    if d.kind != "file-denotes-other-notes" or ps is None:
+        return False
+    marks = set()
+    for n in ps["notes"]:
+        marks.add(n["t"])
+        marks.add(n["t"] + n["dur"])
+    starts = set(m[0] for m in ps["measures"])
+    return any(t not in marks and t not in starts for t, _ in ps["divs"][1:])
+
+
+def known_fermata_any(spec, d):
+    return known_fermata_twice(spec, d) or known_fermata_twice_bytes(spec, d)
+
+
+def known_direction_staff_any(spec, d):
+    return known_direction_staff(spec, d) or known_direction_staff_bytes(spec, d)
+
+
 SUBCHECKS = [
     SubCheck(
         "roundtrip",
         oracle,
         strategy=lambda tier: score_spec(tier),
         budget={"quick": 120, "thorough": 3000},
-        rule="generated scores (1-3 parts, nested part groups, 1-2 staves, 1-3 voices, mid-bar division/signature/clef changes, pickups, irregular bars, tie chains over bar lines, tuplets, grace runs, slurs, articulations, stems, fermatas, fingering, unpitched notes, dynamics, wedges, words with and without dashes, pedal marks, tempo marks, repeats, endings) saved, read by an independent XML walk, re-loaded and re-saved; non-trivial = >=2 voices or staves, a tie over a bar line, or a mid-bar attribute change",
-        known={"voice-reassigned-for-polyphony-in-voice": known_voice, "first-page-print-added-on-reexport": known_print},
-        floors={"multi-voice-or-staff": 0.2, "tie-over-barline": 0.05, "mid-bar-change": 0.1, "pedal": 0.05, "range-direction-over-barline": 0.03},
+        rule="generated scores (1-4 parts, any nesting of part groups with own or shared numbers, 1-3 staves, voices with arbitrary numbers that may move between staves, measures with gaps or no content, notes held over later onsets of their voice, ties inside chords and between voices, slurs on grace notes and between voices, tuplets that begin or end with a rest, bar line fermatas, chord symbols, all dynamics / articulations the importer knows, plain Words, several repeats with 1|2, 1,2|3 and 1|2|3 endings, every documented way of calling save_musicxml / load_musicxml; otherwise as before: mid-bar division/signature/clef changes, pickups, irregular bars, tie chains over bar lines, tuplets, grace runs, slurs, articulations, stems, fermatas, fingering, unpitched notes, dynamics, wedges, words with and without dashes, pedal marks, tempo marks, repeats, endings) saved, read by an independent XML walk, re-loaded and re-saved; non-trivial = >=2 voices or staves, a tie over a bar line, or a mid-bar attribute change",
+        known={"voice-reassigned-for-polyphony-in-voice": known_voice, "first-page-print-added-on-reexport": known_print,
+               "measure-not-filled-to-its-end-gets-shorter": known_unfilled, "right-barline-fermata-written-twice": known_fermata_any,
+               "words-object-not-exported": lambda spec, d: known_words_dropped(spec, d) or known_words_dropped_bytes(spec, d), "direction-staff-lost-on-import": known_direction_staff_any,
+               "soft-accent-not-exported": known_soft_accent, "staff-element-added-for-note-without-staff": known_staffless,
+               "middle-fermata-at-division-change-written-as-left": known_middle_fermata, "slur-elements-in-attachment-order": known_slur_order,
+               "division-change-without-time-point-not-a-segment-boundary": known_division_change_without_point},
+        floors={"multi-voice-or-staff": 0.2, "tie-over-barline": 0.05, "mid-bar-change": 0.1, "pedal": 0.05, "range-direction-over-barline": 0.03,
+                # shapes added by the generator audit (docs/audit/C03.md)
+                "measure-not-filled-to-its-end": 0.05, "empty-measure": 0.02, "voice-numbers-not-1..k": 0.15, "voice-on-two-staves": 0.1,
+                "overlap-in-voice": 0.08, "tie-between-voices": 0.03, "chord-with-two-ties": 0.015, "slur-between-voices": 0.03, "slur-on-grace": 0.1,
+                "barline-fermata": 0.15, "plain-words-object": 0.02, "staff-on-wedge-words-dashes": 0.1, "tuplet-edge-rest": 0.15,
+                "ending-with-number-list-or-3-endings": 0.015, "repeats>=2": 0.03, "group-number-shared": 0.01, "measure-name-not-number": 0.15,
+                "tempo-mid-bar": 0.05, "save-arg-partlist": 0.1, "save-out-path": 0.04, "save-out-file": 0.04, "load-src-mxl": 0.03, "load-src-path": 0.03,
+                "load-options": 0.05},
     ),
 ]
